@@ -40,6 +40,10 @@ EXPLANATION = (
     "NOT decided: chi2-dependent monotonicity of the intermediate family, np.quantile's order-statistic property, the monotonicity "
     "theorem itself."
 )
+# obligations added during the build phase (seeding rounds, twins, mutation analysis)
+ADDED_IN_BUILD = ' Also: every scorer-valued hyper-parameter of the formula scenarios is an arbitrary user scorer (un-interpreted number of parameters, un-interpreted min_size); fitted penalties / thresholds are written by fit only (C10.c re-run).'
+EXPLANATION = EXPLANATION + ADDED_IN_BUILD
+
 ASSUMPTIONS = [
     "Python's ast module and evaluation-order/argument-binding semantics as implemented in skverif/symex.py",
     "library model table skverif/models.py (np.log, np.sqrt, np.cumsum/np.diff/np.minimum as uninterpreted linear/monotone operators)",
